@@ -237,5 +237,46 @@ def cfgshape(cfg):
     return {"root=r1": "single-root", "x=r1": "single-prefix", "x=r1,r2": "two-roots", "x=r2,r1": "two-roots", "x=r1;x/y=r3": "nested-prefixes", "root=r2;x=r1": "nested-prefixes"}[cfg]
 
 
+def gen_twice():
+    for cfg in CONFIGS:
+        if any(v.startswith("/x/y") for v, _ in CONFIGS[cfg]):
+            continue      # the directory y of the including file's root is shadowed by a nested mapping there
+        for order in ("sub-first", "y-first"):
+            for sep in ("/", "\\"):
+                yield [cfg, order, sep]
+
+
+def check_twice(ws, case):
+    """Two files in different directories each contain `#include "f.sqf"`: each gets the file next to ITSELF, in one run."""
+    setup()
+    cfg, order, sep = case
+    maps = [[os.path.join(ROOT, root), virt] for virt, root in CONFIGS[cfg]]
+    virt0, root0 = [m for m in CONFIGS[cfg] if m[1] == "r1"][0]
+    pid = os.getpid()
+    for d in ("sub", "y"):
+        open(os.path.join(ROOT, root0, d, "same_%d.hpp" % pid), "w").write('#include "f.sqf"\n')
+    dirs = ["sub", "y"] if order == "sub-first" else ["y", "sub"]
+    inc_text = "".join('#include "%s%ssame_%d.hpp"\n' % (d, sep, pid) for d in dirs)
+    vmain = virt0.rstrip("/") + "/main.sqf"
+    r = ws.call({"mode": "pp", "fork": True, "timeout_ms": 8000, "cases": [{"text": inc_text, "maps": maps, "path": vmain, "phys": os.path.join(ROOT, root0, "main.sqf"), "conf": {"ops": "none"}}]}, variant="fast")
+    info = {"n": 1, "nontrivial": 1}
+    if r["outcome"] != "ok":
+        return [("C16|include-same-name|%s" % r.get("kind", r["outcome"]), "%r: %s" % (case, r.get("kind")), None, case)], info
+    out = r["result"]["items"][0].get("out", "")
+    import re
+    served = [(m.group(1), m.group(2)) for m in re.finditer(r"TOKEN<([^/>]+)/([^>]+)>", out)]
+    # with a nested mapping x/y=r3 the directory y of the including file is shadowed for ABSOLUTE virtual paths only; the relative
+    # include stays next to the including file physically or goes to the mapped one - both contain an f.sqf of their own; what is
+    # fixed is that the two includes do not resolve to the SAME file
+    want = [("r1", d + "/f.sqf") for d in dirs]
+    # which root of a multi-root prefix serves the file (first root that has it) and a nested mapping of /x/y are judged by the
+    # requests space; here: each include gets the f.sqf of ITS directory
+    ok = len(served) == 2 and all(sv[1] == d + "/f.sqf" or (d == "y" and sv == ("r3", "f.sqf")) for sv, d in zip(served, dirs))
+    if not ok:
+        return [("C16|include-same-name|wrong-file", "%r: two files in different directories include \"f.sqf\": served %r, expected %r" % (case, served, want), None, case)], info
+    return [], info
+
+
 def spaces(tier):
-    return [Space("requests", gen(tier), check, variant="fast", describe="mapping configurations x requesters x request paths")]
+    return [Space("requests", gen(tier), check, variant="fast", describe="mapping configurations x requesters x request paths"),
+            Space("same-name-relative-includes", gen_twice, check_twice, variant="fast", describe="two files in different directories include the same relative name in one preprocessing run")]
